@@ -60,7 +60,7 @@ type hop struct {
 }
 
 type crashSpec struct {
-	Kind string `json:"kind"` // image | tindex-cut | stop-cut | pipesave-cut | snap-missing | snap-torn | tree-missing | tree-zero | tree-half | pipeinfo-torn
+	Kind string `json:"kind"` // image | tindex-cut | stop-cut | pipesave-cut | snap-missing | snap-torn | tree-missing | tree-zero-intact | tree-zero | tree-half | pipeinfo-torn
 	K    int    `json:"k,omitempty"`
 	Len  string `json:"len,omitempty"`  // 0 | 1 | h | m | f
 	Pipe string `json:"pipe,omitempty"` // pipesave-cut, pipeinfo-torn
@@ -469,6 +469,9 @@ func partTags(i int) string {
 	if i == 99 {
 		return "z=9" // matches no pipe selector of the generators
 	}
+	if i >= 50 {
+		return fmt.Sprintf("d=%d", i) // partitions that get deleted: matched by no pipe selector either
+	}
 	return partTagsG(i)
 }
 
@@ -601,10 +604,65 @@ func (s *sim) doTruncate(o hop) {
 	if removed == 0 {
 		return
 	}
+	// the library removes the files of a truncated chunk asynchronously, once no reader holds the chunk; a stop or an image
+	// taken before that brings the chunk back (C09's matter, schedule-dependent): wait for the files to go
+	if !s.waitChunkFilesGone(p.chunks[:removed]) {
+		res.Dist(s.sect, "truncate-chunk-files-still-there(case ended)")
+		s.dead = true
+		return
+	}
 	p.chunks = p.chunks[removed:]
 	p.events = p.events[nev:]
 	s.expect(fmt.Sprintf("dropchunks %s %d", vh.HxS(p.dense), removed), true, "ok", "truncate")
 	res.Dist(s.sect, "truncate-removed-chunks")
+}
+
+func (s *sim) waitChunkFilesGone(cs []chunkL) bool {
+	for try := 0; try < 600; try++ {
+		left := 0
+		for _, c := range cs {
+			m, _ := filepath.Glob(filepath.Join(s.dir, "db", "*", "*", fmt.Sprintf("%016X.*", c.id)))
+			left += len(m)
+		}
+		if left == 0 {
+			return true
+		}
+		time.Sleep(5 * time.Millisecond)
+	}
+	return false
+}
+
+// doDropPart: TRUNCATE that removes every chunk, after which the partition itself is deleted (tindex.Delete + directory)
+func (s *sim) doDropPart(o hop) {
+	p := s.parts[partTags(o.Part)]
+	if p == nil || len(p.events) == 0 {
+		return
+	}
+	if _, err := s.srv.Exec(fmt.Sprintf("truncate %s maxsize 1", fromOf(p.tags))); err != nil {
+		res.Note("%s: truncate(all) %s: %v", s.sec, p.tags, err)
+		return
+	}
+	if _, still := s.implParts()[p.tags]; still {
+		// not deleted (somebody held it): follow what happened to the chunks
+		l, err := s.layout(p)
+		if err == nil {
+			removed, nev := 0, 0
+			for removed < len(p.chunks) && (len(l) == 0 || p.chunks[removed].id != l[0].id) {
+				nev += p.chunks[removed].n
+				removed++
+			}
+			if removed > 0 {
+				p.chunks = p.chunks[removed:]
+				p.events = p.events[nev:]
+				s.expect(fmt.Sprintf("dropchunks %s %d", vh.HxS(p.dense), removed), true, "ok", "truncate")
+			}
+		}
+		res.Dist(s.sect, "droppart-not-deleted")
+		return
+	}
+	delete(s.parts, p.tags)
+	s.expect("droppart "+vh.HxS(p.dense), true, "ok", "deleteJournal")
+	res.Dist(s.sect, "partition-deleted")
 }
 
 // ---------------------------------------------------------------------------------------------
@@ -766,6 +824,16 @@ func (s *sim) ranges(p *part, rng *vh.Rng) [][2]int64 {
 		off += c.n
 	}
 	rs := [][2]int64{{last, last + 3}, {first - 3, first}, {first, last}, {last + 1, last + 9}}
+	// upper bound strictly inside a chunk's time hull (the look-up goes through `less` on the chunk's index tree)
+	for i := 0; i+1 < len(bs); i += 2 {
+		if bs[i+1]-bs[i] >= 2 {
+			mid := bs[i] + 1 + int64(rng.Intn(int(bs[i+1]-bs[i]-1)))
+			rs = append(rs, [2]int64{first - 2, mid})
+			if len(rs) > 9 {
+				break
+			}
+		}
+	}
 	if len(p.events) >= 2 {
 		// the tail: what a stale snapshot does not cover
 		t := p.events[len(p.events)-1-rng.Intn(minI(len(p.events)-1, 6))].Ts
@@ -1109,6 +1177,8 @@ func (s *sim) runOps(ops []hop, rng *vh.Rng) {
 			s.doRmPipe(o)
 		case "truncate":
 			s.doTruncate(o)
+		case "droppart":
+			s.doDropPart(o)
 		case "restart":
 			s.restart(o, rng, nil, nil)
 		}
@@ -1327,6 +1397,16 @@ func runCrash(c scase, sec string, sect *vh.Section, rng *vh.Rng) {
 			ioutil.WriteFile(fn, b[:n], 0640)
 			v.model("ftorn cindex.dat "+cs.Len, true)
 		}
+	case "tree-zero-intact":
+		// every tree file zero-filled (its pages never reached the disk), the snapshot of the clean stop intact and complete:
+		// nothing was written since the last graceful restart
+		trees, _ := filepath.Glob(filepath.Join(img, "cindex", "*.tidx"))
+		for _, f := range trees {
+			st, _ := os.Stat(f)
+			ioutil.WriteFile(f, make([]byte, st.Size()), 0640)
+		}
+		res.Dist(sect, fmt.Sprintf("tree-zero-intact:files=%d", len(trees)))
+		v.model("crash", true)
 	case "tree-missing", "tree-zero", "tree-half":
 		trees, _ := filepath.Glob(filepath.Join(img, "cindex", "*.tidx"))
 		for _, f := range trees {
@@ -1411,6 +1491,14 @@ func genOps(rng *vh.Rng, nops int, withRestarts bool) []hop {
 			}
 		case r < 14:
 			ops = append(ops, hop{Kind: "truncate", Part: rng.Intn(np)})
+		case r < 15:
+			// a partition that is deleted completely; in two of three cases the deletion is the last change of the tag index
+			// before the next graceful stop
+			d := 50 + rng.Intn(2)
+			ops = append(ops, hop{Kind: "write", Part: d, N: rng.PickI([]int{1, 4, 60})}, hop{Kind: "droppart", Part: d})
+			if rng.Chance(2, 3) {
+				ops = append(ops, hop{Kind: "restart", Quiesce: true})
+			}
 		default:
 			if withRestarts {
 				ops = append(ops, hop{Kind: "restart", Quiesce: rng.Chance(2, 3)})
@@ -1431,7 +1519,7 @@ func genGraceful(rng *vh.Rng) scase {
 }
 
 // tree-zero / tree-half exist as replayable kinds but are not generated: see design-notes/C07.md (damaged tree files give wrong RANGE answers; C02's tree)
-var crashKinds = []string{"image", "image", "tindex-cut", "tindex-cut", "stop-cut", "pipesave-cut", "snap-missing", "snap-torn", "tree-missing", "image", "stop-cut"}
+var crashKinds = []string{"image", "image", "tindex-cut", "tindex-cut", "stop-cut", "pipesave-cut", "snap-missing", "snap-torn", "tree-missing", "tree-zero-intact", "stop-cut"}
 var lenClasses = []string{"0", "1", "h", "m", "f"}
 
 func genCrash(rng *vh.Rng, i int) scase {
@@ -1459,6 +1547,9 @@ func genCrash(rng *vh.Rng, i int) scase {
 		if rng.Bool() {
 			c.Ops = append(c.Ops, hop{Kind: "restart", Quiesce: true})
 		}
+	case "tree-zero-intact":
+		c.Ops = append(c.Ops, hop{Kind: "write", Part: 0, N: rng.PickI([]int{40, 300, 600})}, hop{Kind: "write", Part: 1, N: rng.PickI([]int{3, 280})},
+			hop{Kind: "restart", Quiesce: true})
 	case "image":
 		if rng.Bool() {
 			// make a stale snapshot likely: clean restart, then growth
